@@ -458,6 +458,185 @@ def near_job(kind):
 NEAR_KINDS = ["hamiltonian", "rate", "lindblad-operator", "coupling", "alpha", "initial-state"]
 
 
+# ---------------------------------------------------------------- (E) caller-owned arrays: objects keep the contents
+SNAP_CFG = """
+INIT Init
+NEXT Next
+INVARIANT SnapshotSemantics
+PROPERTY NoMutation
+INVARIANT EmitCase
+"""
+
+
+def snapshot_kinds():
+    """kind -> (content(v) -> array, build(array) -> object, compute(object) -> result array)"""
+    import oqupy
+    from oqupy import bath_dynamics
+    from oqupy.process_tensor import SimpleProcessTensor
+    sx, sy, sz = oqupy.operators.sigma("x"), oqupy.operators.sigma("y"), oqupy.operators.sigma("z")
+    corr = oqupy.PowerLawSD(alpha=0.1, zeta=1.0, cutoff=2.0, cutoff_type="exponential", temperature=0.0)
+    params = oqupy.TempoParameters(dt=0.1, epsrel=1e-7, dkmax=2)
+    h0 = (0.5 * sx + 0.2 * sz).astype(complex)
+
+    def rho(v):
+        p = 0.2 * v
+        return np.array([[1 - p, 0.1 * v - 0.05j], [0.1 * v + 0.05j, p]], dtype=complex)
+
+    def herm(v):
+        return (0.3 * v * sx + 0.2 * sz + 0.1 * v * sy).astype(complex)
+
+    def chan(v):
+        from scipy.linalg import expm
+        u = expm(-0.3j * v * (sx + 0.5 * sy))
+        return np.kron(u, u.conj()).astype(complex)
+
+    def deph(v):
+        t = np.diag([1.0, 1.0 - 0.2 * v, 1.0 - 0.2 * v, 1.0]).astype(complex)
+        return t.reshape(1, 1, 4, 4)
+
+    def free(system, r=None):
+        return np.array(oqupy.compute_dynamics(system, initial_state=rho(1) if r is None else r, dt=0.1, num_steps=2,
+                                               progress_type="silent").states)
+
+    def chain_run(chain=None, mps=None, ctrl=None):
+        if chain is None:
+            chain = oqupy.SystemChain([2, 2])
+            chain.add_site_hamiltonian(0, h0)
+            chain.add_nn_hamiltonian(0, sz, sz)
+        if mps is None:
+            mps = oqupy.AugmentedMPS([rho(1), rho(2)])
+        t = oqupy.PtTebd(mps, chain, [None, None], oqupy.PtTebdParameters(dt=0.1, epsrel=1e-10), dynamics_sites=[0, 1],
+                         chain_control=ctrl)
+        r = t.compute(2, progress_type="silent")
+        return np.array(r["dynamics"][0].states + r["dynamics"][1].states)
+
+    def trivial_pt():
+        pt = SimpleProcessTensor(2, dt=0.1)
+        for k in range(3):
+            pt.set_mpo_tensor(k, np.eye(4).reshape(1, 1, 4, 4))
+        pt.compute_caps()
+        return pt
+
+    def mf(r):
+        fs = oqupy.TimeDependentSystemWithField(lambda t, a: h0 + 0.1 * a.real * sz)
+        mfs = oqupy.MeanFieldSystem([fs], field_eom=lambda t, st, a: -0.5j * a - 0.1j * np.trace(st[0] @ sx))
+        return oqupy.MeanFieldTempo(mfs, [oqupy.Bath(0.5 * sz, corr)], params, [r], 0.2 + 0j, 0.0)
+
+    def ctl(op):
+        c = oqupy.Control(2)
+        c.add_single(1, op)
+        c.add_single(0.2, op, post=True)
+        return c
+
+    def chainctl(op):
+        c = oqupy.ChainControl([2, 2])
+        c.add_single_site_control(op, 0, 1, post=False)
+        return c
+
+    def chain_of(h):
+        ch = oqupy.SystemChain([2, 2])
+        ch.add_site_hamiltonian(0, h)
+        ch.add_nn_hamiltonian(0, h, sz)
+        ch.add_site_dissipation(1, h, 0.3)
+        ch.add_nn_dissipation(0, sz, h, 0.2)
+        return ch
+
+    def spt(t):
+        pt = SimpleProcessTensor(2, dt=0.1)
+        for k in range(2):
+            pt.set_mpo_tensor(k, t)
+        pt.compute_caps()
+        return pt
+
+    def dyn(r):
+        d = oqupy.Dynamics(times=[0.0], states=[r])
+        d.add(0.1, r)
+        return d
+
+    return {
+        "Tempo(initial_state)": (rho, lambda r: oqupy.Tempo(oqupy.System(h0), oqupy.Bath(0.5 * sz, corr), params, r, 0.0),
+                                 lambda t: np.array(t.compute(0.2, progress_type="silent").states)),
+        "MeanFieldTempo(initial_state_list)": (rho, mf, lambda t: np.array(t.compute(0.2, progress_type="silent").system_dynamics[0].states)),
+        "TwoTimeBathCorrelations(initial_state)": (rho, lambda r: bath_dynamics.TwoTimeBathCorrelations(
+            oqupy.System(h0), oqupy.Bath(0.5 * sz, corr), trivial_pt(), initial_state=r),
+            lambda b: np.array(b.occupation(1.3, progress_type="silent")[1])),
+        "Control.add_single": (chan, ctl, lambda c: np.array(oqupy.compute_dynamics(
+            oqupy.System(h0), initial_state=rho(1), dt=0.1, num_steps=3, control=c, progress_type="silent").states)),
+        "ChainControl.add_single_site_control": (chan, chainctl, lambda c: chain_run(ctrl=c)),
+        "System(hamiltonian)": (herm, oqupy.System, free),
+        "System(lindblad_operators)": (herm, lambda l: oqupy.System(h0, gammas=[0.4], lindblad_operators=[l]), free),
+        "Bath(coupling_operator)": (herm, lambda o: oqupy.Bath(o, corr), lambda b: np.array(
+            oqupy.Tempo(oqupy.System(h0), b, params, rho(1), 0.0).compute(0.2, progress_type="silent").states)),
+        "SystemChain.add_*": (herm, chain_of, lambda ch: chain_run(chain=ch)),
+        "AugmentedMPS(gammas)": (rho, lambda r: oqupy.AugmentedMPS([r, rho(2)]), lambda m: chain_run(mps=m)),
+        "SimpleProcessTensor.set_mpo_tensor": (deph, spt, lambda pt: np.array(oqupy.compute_dynamics(
+            oqupy.System(h0), initial_state=rho(1), process_tensor=pt, progress_type="silent").states)),
+        "Dynamics(states)": (rho, dyn, lambda d: np.array(d.states)),
+    }
+
+
+def snapshot_job(job):
+    case, kind = job
+    out = []
+    try:
+        content, build, compute = snapshot_kinds()[kind]
+        versions = sorted({h["arg"] for h in case["hist"] if h["op"] == "write"} | {1})
+        table = {v: compute(build(content(v).copy())) for v in versions}
+        for a in versions:
+            for b in versions:
+                if a < b and np.allclose(table[a], table[b], atol=1e-6):
+                    return [{"what": "harness", "detail": "%s: versions %d and %d give the same result" % (kind, a, b)}]
+        buf = content(1).copy()
+        cur = 1
+        objs = []
+        for i, h in enumerate(case["hist"]):
+            if h["op"] == "write":
+                buf[...] = content(h["arg"])
+                cur = h["arg"]
+                continue
+            if h["op"] == "build":
+                objs.append(build(buf))
+            else:
+                got = compute(objs[h["arg"] - 1])
+                refl = [v for v in versions if got.shape == table[v].shape and np.allclose(got, table[v], atol=1e-9)]
+                if refl != [h["obs"]]:
+                    out.append({"what": "object-reflects-later-contents-of-the-callers-array" if refl == [cur] else
+                                "object-reflects-wrong-contents", "operation": i, "expected_version": h["obs"],
+                                "observed_versions": refl})
+                    break
+            if not np.array_equal(buf, content(cur)):
+                out.append({"what": "callers-array-modified", "operation": i, "op": h["op"]})
+                break
+    except Exception as ex:  # pylint: disable=broad-except
+        import traceback
+        out.append({"what": "exception", "detail": "%s: %s" % (type(ex).__name__, str(ex)[:150]), "tb": traceback.format_exc()[-400:]})
+    return out
+
+
+def attribute_job(attr):
+    """An object whose public parameter is changed answers with its current value in all of its methods: a PowerLawSD after
+    `c.<attr> = new` must equal a fresh PowerLawSD(<attr>=new) in spectral_density, correlation and in 2D integrals at
+    arguments never used before."""
+    import oqupy
+    base = {"alpha": 0.1, "zeta": 1.0, "cutoff": 3.0, "temperature": 0.5}
+    new = {"alpha": 0.25, "zeta": 3.0, "cutoff": 1.5, "temperature": 1.7}[attr]
+    out = []
+    for ctype in ("exponential", "gaussian", "hard"):
+        c = oqupy.PowerLawSD(cutoff_type=ctype, **base)
+        setattr(c, attr, new)
+        fresh = oqupy.PowerLawSD(cutoff_type=ctype, **dict(base, **{attr: new}))
+        probes_ = {"spectral_density": lambda o: o.spectral_density(1.1),
+                   "correlation": lambda o: o.correlation(0.37),
+                   "correlation_2d_integral(square)": lambda o: o.correlation_2d_integral(0.11, 0.33, shape="square"),
+                   "correlation_2d_integral(upper-triangle)": lambda o: o.correlation_2d_integral(0.13, 0.0, shape="upper-triangle")}
+        for name, f in probes_.items():
+            a, b = f(c), f(fresh)
+            if abs(a - b) > 1e-9 * max(1.0, abs(b)):
+                out.append({"what": "updated-object-differs-from-fresh-object", "attribute": attr, "cutoff_type": ctype,
+                            "method": name, "updated": str(a), "fresh": str(b)})
+    return out
+
+
 def hkey(c):
     return tuple((h["op"], h["arg"]) for h in c["hist"])
 
@@ -514,6 +693,32 @@ def run(ctx):
             if x["what"] == "harness":
                 raise core.MachineryError(x["detail"])
             ctx.violation("C20:near:%s" % x["what"], "%s: %s" % (kind, x), {"near": kind})
+    # (D) public attributes of a correlations object, one by one
+    for attr, mm in zip(("alpha", "zeta", "cutoff", "temperature"), core.pmap(attribute_job, ["alpha", "zeta", "cutoff", "temperature"])):
+        ctx.case({"attribute_update": attr}, nontrivial=True)
+        for x in mm:
+            ctx.violation("C20:attribute:%s" % x["what"], "%s" % x, {"attribute": attr})
+    # (E) caller-owned arrays (Snapshot.tla)
+    sconsts = {"Versions": "1..3", "MaxOps": "4" if quick else "5", "Emit": "TRUE"}
+    sdev = ctx.tlc("Snapshot", SNAP_CFG, label="deviation Alias (must violate)", workers=2, must_hold=False,
+                   constants=dict(sconsts, Devs='{"Alias"}', Emit="FALSE"))
+    if sdev.ok:
+        raise core.MachineryError("Snapshot deviation Alias not distinguished")
+    snap = ctx.tlc("Snapshot", SNAP_CFG, label="histories of write / build / compute", workers=2, constants=dict(sconsts, Devs="{}"))
+    scases = [c for c in snap.cases if any(h["op"] == "compute" for h in c["hist"])]
+    skinds = ["Tempo(initial_state)", "MeanFieldTempo(initial_state_list)", "TwoTimeBathCorrelations(initial_state)",
+              "Control.add_single", "ChainControl.add_single_site_control", "System(hamiltonian)", "System(lindblad_operators)",
+              "Bath(coupling_operator)", "SystemChain.add_*", "AugmentedMPS(gammas)", "SimpleProcessTensor.set_mpo_tensor",
+              "Dynamics(states)"]
+    sjobs = [(c, k) for ki, k in enumerate(skinds) for ci, c in enumerate(scases) if not quick or (ci + ki) % 3 == 0]
+    for (c, k), mm in zip(sjobs, core.pmap(snapshot_job, sjobs, chunksize=4)):
+        hd = [[h["op"], h["arg"]] for h in c["hist"]]
+        ctx.case({"snapshot": k, "history": hd},
+                 nontrivial=any(h["op"] == "write" for h in c["hist"]))
+        for x in mm:
+            if x["what"] == "harness":
+                raise core.MachineryError(x["detail"])
+            ctx.violation("C20:snapshot:%s:%s" % (k, x["what"]), "%s %s: %s" % (k, hd, x), {"snapshot": [c, k]})
     # (C) reuse of shared objects
     kinds = '{"tempo", "pttempo", "dynamics", "correlations", "gradient", "tebd", "bathcorr-early", "bathcorr-late", "bathocc", "pttempo-nomem-short", "tempo-nomem-long"}'
     ru = ctx.tlc("ObjectGraph", CFG_USE, label="sequences of computations re-using shared objects", workers=2,
@@ -542,6 +747,12 @@ def replay(ctx, rep):
             ctx.violation("C20:replay:" + x["what"], str(x), c)
     elif "reuse" in c:
         for x in reuse_job(c["reuse"]):
+            ctx.violation("C20:replay:" + x["what"], str(x), c)
+    elif "snapshot" in c:
+        for x in snapshot_job(tuple(c["snapshot"])):
+            ctx.violation("C20:replay:" + x["what"], str(x), c)
+    elif "attribute" in c:
+        for x in attribute_job(c["attribute"]):
             ctx.violation("C20:replay:" + x["what"], str(x), c)
     else:
         r = history_job(c["history"])
